@@ -22,7 +22,7 @@ Inductive top : Type :=
 | OSetRowCell (c r x : N).
 
 Record ocase : Type := mkOCase {
-  oc_dbg : bool; oc_kind : nat; oc_C : nat; oc_R : nat; oc_win : N * N * N * N;
+  oc_dbg : bool; oc_kind : nat; oc_zst : bool; oc_C : nat; oc_R : nat; oc_win : N * N * N * N;
   oc_data : list N; oc_op : top;
 }.
 
@@ -43,7 +43,7 @@ Definition p_top : parser top :=
   | 11 => a <~ p_N ;; b <~ p_N ;; p_ret (OTranslate a b)
   | 12 => p_ret OFlipRows
   | 13 => p_ret OFlipCols
-  | 14 => v <~ p_nat ;; l <~ p_N ;; s <~ p_list p_nat ;; p_ret (OSort v l s)
+  | 14 => v <~ p_nat ;; l <~ p_N ;; s <~ p_list p_nat ;; p_ret (OSort (v mod 20) l s)   (* + 20: a one-byte key type *)
   | 17 => v <~ p_nat ;; l <~ p_N ;; k <~ p_N ;; f <~ p_bool ;; s <~ p_list p_nat ;; p_ret (OSortFuse v l k f s)
   | 15 => a <~ p_N ;; b <~ p_N ;; c <~ p_N ;; p_ret (OSetCell a b c)
   | 16 => a <~ p_N ;; b <~ p_N ;; c <~ p_N ;; p_ret (OSetRowCell a b c)
@@ -54,7 +54,7 @@ Definition p_ocase : parser ocase :=
   dbg <~ p_bool ;; k <~ p_nat ;; C <~ p_nat ;; R <~ p_nat ;;
   s0 <~ p_N ;; s1 <~ p_N ;; e0 <~ p_N ;; e1 <~ p_N ;;
   d <~ p_list p_N ;; o <~ p_top ;;
-  p_ret (mkOCase dbg k C R (s0, s1, e0, e1) d o).
+  p_ret (mkOCase dbg (k mod 10) (10 <=? k) C R (s0, s1, e0, e1) d o).
 
 Definition oc_receiver (c : ocase) : res (rkind * view) :=
   let parent := view_of_owned (oc_C c) (oc_R c) (oc_C c * oc_R c) in
@@ -129,8 +129,9 @@ Definition ops_model (inp : list N) : list N :=
       match oc_receiver c with
       | Ok (k, v) =>
           match run_top (oc_dbg c) k v (oc_data c) (oc_op c) with
-          | Ok (extra, b') => 1%N :: extra ++ e_Nlist b'
-          | Panic => 0%N :: e_Nlist (oc_data c)
+          (* zero-sized elements: only the outcome and the buffer's length are observable *)
+          | Ok (extra, b') => if oc_zst c then [1%N; N.of_nat (length b')] else 1%N :: extra ++ e_Nlist b'
+          | Panic => if oc_zst c then [0%N; N.of_nat (length (oc_data c))] else 0%N :: e_Nlist (oc_data c)
           | UB => [777771%N]
           end
       | _ => [777770%N]
